@@ -97,6 +97,32 @@ Proof.
     rewrite E21. cbn [negb]. apply str_ltb_total. apply str_neq_eqb. exact E12.
 Qed.
 
+(* the documented levels P0..P4 *)
+Theorem less_levels a b :
+  less a b = true <->
+  (it_match b < it_match a) \/
+  (it_match a = it_match b /\ max_allocatable a < max_allocatable b) \/
+  (it_match a = it_match b /\ max_allocatable a = max_allocatable b /\ node_mask_size b < node_mask_size a) \/
+  (it_match a = it_match b /\ max_allocatable a = max_allocatable b /\ node_mask_size a = node_mask_size b /\
+     it_sel a <> it_sel b /\ str_ltb (it_sel a) (it_sel b) = true) \/
+  (it_match a = it_match b /\ max_allocatable a = max_allocatable b /\ node_mask_size a = node_mask_size b /\
+     it_sel a = it_sel b /\ str_ltb (cidr_label a) (cidr_label b) = true).
+Proof.
+  unfold less. generalize (it_match a) (it_match b) (max_allocatable a) (max_allocatable b)
+    (node_mask_size a) (node_mask_size b) (it_sel a) (it_sel b) (cidr_label a) (cidr_label b).
+  intros m1 m2 a1 a2 n1 n2 s1 s2 l1 l2.
+  destruct (N.eqb_spec m1 m2); cbn [negb]; [|rewrite N.ltb_lt; split; [intros H; left; exact H|intros [H|[H|[H|[H|H]]]]; [exact H|lia..]]].
+  destruct (N.eqb_spec a1 a2); cbn [negb]; [|rewrite N.ltb_lt; split; [intros H; right; left; split; assumption|intros [H|[H|[H|[H|H]]]]; lia]].
+  destruct (N.eqb_spec n1 n2); cbn [negb]; [|rewrite N.ltb_lt; split; [intros H; right; right; left; repeat split; assumption|intros [H|[H|[H|[H|H]]]]; lia]].
+  destruct (str_eqb s1 s2) eqn:E; cbn [negb].
+  - apply str_eqb_eq in E. split.
+    + intros H. right; right; right; right. repeat split; assumption.
+    + intros [H|[H|[H|[H|H]]]]; try lia; [destruct H as (_ & _ & _ & Hne & _); congruence|apply H].
+  - apply str_neq_eqb in E. split.
+    + intros H. right; right; right; left. repeat split; assumption.
+    + intros [H|[H|[H|[H|H]]]]; try lia; [apply H|destruct H as (_ & _ & _ & He & _); congruence].
+Qed.
+
 (* Less depends on the items only through their five keys *)
 Theorem less_key a a' b b' : key a = key a' -> key b = key b' -> less a b = less a' b'.
 Proof. unfold key, less. intros H1 H2. inversion H1. inversion H2. congruence. Qed.
